@@ -1,0 +1,157 @@
+//go:build verif
+
+package otto
+
+import (
+	"fmt"
+	"reflect"
+	goruntime "runtime"
+	"sort"
+	"strings"
+)
+
+// Verification hooks (build tag verif) for the shape of the standard library.
+// They only read runtime structures; they add code and change no behaviour.
+
+func verifFuncName(fn interface{}) string {
+	v := reflect.ValueOf(fn)
+	if !v.IsValid() || v.Kind() != reflect.Func || v.IsNil() {
+		return "-"
+	}
+	f := goruntime.FuncForPC(v.Pointer())
+	if f == nil {
+		return "?"
+	}
+	n := f.Name()
+	if i := strings.LastIndex(n, "/"); i >= 0 {
+		n = n[i+1:]
+	}
+	n = strings.TrimPrefix(n, "otto.")
+	return n
+}
+
+// verifOwners lists the standard-library objects held in the runtime's `global`
+// struct (the pointers the evaluator itself uses for prototype links) by path.
+func verifOwners(rt *runtime) [][2]interface{} {
+	g := &rt.global
+	return [][2]interface{}{
+		{"global", rt.globalObject},
+		{"Object", g.Object}, {"Object.prototype", g.ObjectPrototype},
+		{"Function", g.Function}, {"Function.prototype", g.FunctionPrototype},
+		{"Array", g.Array}, {"Array.prototype", g.ArrayPrototype},
+		{"String", g.String}, {"String.prototype", g.StringPrototype},
+		{"Boolean", g.Boolean}, {"Boolean.prototype", g.BooleanPrototype},
+		{"Number", g.Number}, {"Number.prototype", g.NumberPrototype},
+		{"Math", g.Math},
+		{"Date", g.Date}, {"Date.prototype", g.DatePrototype},
+		{"RegExp", g.RegExp}, {"RegExp.prototype", g.RegExpPrototype},
+		{"Error", g.Error}, {"Error.prototype", g.ErrorPrototype},
+		{"EvalError", g.EvalError}, {"EvalError.prototype", g.EvalErrorPrototype},
+		{"RangeError", g.RangeError}, {"RangeError.prototype", g.RangeErrorPrototype},
+		{"ReferenceError", g.ReferenceError}, {"ReferenceError.prototype", g.ReferenceErrorPrototype},
+		{"SyntaxError", g.SyntaxError}, {"SyntaxError.prototype", g.SyntaxErrorPrototype},
+		{"TypeError", g.TypeError}, {"TypeError.prototype", g.TypeErrorPrototype},
+		{"URIError", g.URIError}, {"URIError.prototype", g.URIErrorPrototype},
+		{"JSON", g.JSON},
+	}
+}
+
+// VerifC14Static reports, straight from the Go structures of a runtime, tab separated lines
+//
+//	bind  <owner> <property> <mode, octal> <nativeFunctionObject.name> <Go name of .call> <Go name of .construct>
+//	self  <owner> <class field> <nativeFunctionObject.name> <Go name of .call> <Go name of .construct>
+//	order <path>  <detail>     one line per reachable object whose propertyOrder is not exactly the key set of property
+//	count <number of objects visited>
+//	eval  <ok|differs>         rt.eval is the object bound to the global property eval
+//
+// for the objects held in rt.global (the pointers the evaluator uses) and everything reachable from them.
+func VerifC14Static(vm *Otto) []string {
+	rt := vm.runtime
+	var out []string
+	nativeOf := func(o *object) (string, string, string, bool) {
+		if nf, ok := o.value.(nativeFunctionObject); ok {
+			return nf.name, verifFuncName(nf.call), verifFuncName(nf.construct), true
+		}
+		return "-", "-", "-", false
+	}
+	for _, ow := range verifOwners(rt) {
+		name, obj := ow[0].(string), ow[1].(*object)
+		if obj == nil {
+			out = append(out, fmt.Sprintf("self\t%s\tnil\t-\t-\t-", name))
+			continue
+		}
+		n, c, k, _ := nativeOf(obj)
+		out = append(out, fmt.Sprintf("self\t%s\t%s\t%s\t%s\t%s", name, obj.class, n, c, k))
+		for _, pn := range obj.propertyOrder {
+			p, ok := obj.property[pn]
+			if !ok {
+				continue
+			}
+			v, isv := p.value.(Value)
+			if !isv {
+				out = append(out, fmt.Sprintf("bind\t%s\t%s\t%o\taccessor\t-\t-", name, pn, p.mode))
+				continue
+			}
+			if fo, isobj := v.value.(*object); isobj && v.kind == valueObject {
+				n, c, k, isn := nativeOf(fo)
+				if isn {
+					out = append(out, fmt.Sprintf("bind\t%s\t%s\t%o\t%s\t%s\t%s", name, pn, p.mode, n, c, k))
+					continue
+				}
+			}
+			out = append(out, fmt.Sprintf("bind\t%s\t%s\t%o\t-\t-\t-", name, pn, p.mode))
+		}
+	}
+	// propertyOrder consistency over everything reachable
+	seen := map[*object]bool{}
+	var bad []string
+	var walk func(o *object, path string)
+	walk = func(o *object, path string) {
+		if o == nil || seen[o] {
+			return
+		}
+		seen[o] = true
+		keys := make([]string, 0, len(o.property))
+		for k := range o.property {
+			keys = append(keys, k)
+		}
+		sort.Strings(keys)
+		ord := append([]string(nil), o.propertyOrder...)
+		sort.Strings(ord)
+		if strings.Join(keys, ",") != strings.Join(ord, ",") {
+			bad = append(bad, fmt.Sprintf("order\t%s\tkeys=%s;order=%s", path, strings.Join(keys, ","), strings.Join(ord, ",")))
+		}
+		walk(o.prototype, path+".[[Prototype]]")
+		for _, k := range keys {
+			p := o.property[k]
+			switch pv := p.value.(type) {
+			case Value:
+				if c, ok := pv.value.(*object); ok {
+					walk(c, path+"."+k)
+				}
+			case *propertyGetSet:
+				walk(pv[0], path+"."+k+".get")
+				walk(pv[1], path+"."+k+".set")
+			case propertyGetSet:
+				walk(pv[0], path+"."+k+".get")
+				walk(pv[1], path+"."+k+".set")
+			}
+		}
+	}
+	for _, ow := range verifOwners(rt) {
+		walk(ow[1].(*object), ow[0].(string))
+	}
+	sort.Strings(bad)
+	out = append(out, bad...)
+	out = append(out, fmt.Sprintf("count\t%d", len(seen)))
+	ev := "differs"
+	if p, ok := rt.globalObject.property["eval"]; ok {
+		if v, isv := p.value.(Value); isv {
+			if o, iso := v.value.(*object); iso && o == rt.eval {
+				ev = "ok"
+			}
+		}
+	}
+	out = append(out, "eval\t"+ev)
+	return out
+}
